@@ -20,7 +20,7 @@ RULE = ("builder calls enumerated over literal lists (length 0..5 quick / 0..7 t
 ASSUMPTIONS = ["the truth-table engine (self-checked against a naive evaluator at start-up)",
                "mapping atoms are read through the group's own index->variable call (judged by C11)"]
 REQUIRED = ["cnf_builder_calls", "opb_builder_calls", "mapping_calls", "normalize_calls",
-            "generator_arguments", "range_arguments", "descending_arguments", "unchecked_builder_calls", "tuple_arguments", "wide_parity_calls", "wide_binary_mappings"]
+            "generator_arguments", "range_arguments", "descending_arguments", "unchecked_builder_calls", "tuple_arguments", "wide_parity_calls", "wide_binary_mappings", "huge_parity_calls"]
 
 OPS = {"<=": operator.le, ">=": operator.ge, "<": operator.lt, ">": operator.gt,
        "==": operator.eq, "!=": operator.ne}
@@ -542,6 +542,8 @@ def workload(tier, seed):
                         yield "unary_mapping", {"cls": cls, "n": n, "m": m, "edgemask": mask, "offset": 0}
         for L in (9, 10) if tier == "quick" else (9, 10, 11):
             yield "wide", {"cls": cls, "L": L}
+        for L in (13, 17) if tier == "quick" else (13, 16, 17, 18, 20):
+            yield "huge_parity", {"cls": cls, "L": L}
         for m in (257, 300, 513, 1025, 2 ** 20 - 3) if tier == "quick" else (256, 257, 300, 512, 513, 1000, 1024, 1025, 2049, 2 ** 17 - 3,
                                                                               2 ** 19 - 2, 2 ** 20 - 3, 2 ** 21 - 3, 2 ** 22 - 5):
             yield "binary_mapping_wide", {"cls": cls, "m": m}
@@ -583,6 +585,62 @@ def case_wide(ctx, cls, L):
                 ctx.count(cls.lower() + "_builder_calls")
                 judge(ctx, "%s.linear[%s]" % (cls, op), F, n, pred, ("wide-lin", cls, tuple(lits), op, const),
                       "%s linear(%r, %r, %d)" % (cls, lits, op, const))
+
+
+def case_huge_parity(ctx, cls, L):
+    """Parity constraints on 13-20 literals (beyond 16-bit folding tricks).  Exact without a truth table: when every
+    constraint is a clause over the same L variables, each clause forbids exactly one assignment of them, so the model
+    set is the parity iff the clauses are 2^(L-1) distinct patterns whose forbidden assignments all violate the parity.
+    Any other encoding is judged on sampled assignments (never an alarm for an equivalent encoding)."""
+    from ..refmodels.names import Evaluator
+    K = classes()[cls]
+    r = ctx.rng("c04hugeparity", cls, L)
+    shift = r.choice([0, 3])
+    base = list(range(1 + shift, L + 1 + shift))
+    pats = [list(base), [r.choice([1, -1]) * v for v in r.sample(base, L)]]
+    if L >= 20:
+        pats = pats[1:]
+    for lits in pats:
+        for const in (0, 1):
+            F = K()
+            if not call_builder(ctx, cls + ".add_parity", F, F.add_parity, list(lits), const):
+                continue
+            ctx.count(cls.lower() + "_builder_calls")
+            ctx.count("huge_parity_calls")
+            who = cls + ".add_parity[%d literals]" % L
+            desc = "%s.add_parity(%r, %r)" % (cls, lits, const)
+            if F.number_of_variables() != L + shift:
+                ctx.violation(who + ":numvar", "%s: %d variables declared, the literals reach %d" % (desc, F.number_of_variables(), L + shift))
+                continue
+            neg = {abs(l) for l in lits if l < 0}
+            E = Evaluator(F)
+            vs = tuple(sorted(base))
+            how = "sampled"
+            if not E.other and set(E.groups) == {vs}:
+                how = "exact"
+                got = E.groups[vs]
+                bad = None
+                for p in got:
+                    # the assignment this clause forbids: v is true iff its literal in the clause is negative
+                    sat = sum(1 for v, positive in zip(vs, p) if (not positive) != (v in neg))
+                    if sat % 2 == const:
+                        bad = [v if not positive else -v for v, positive in zip(vs, p)]
+                        break
+                if bad is not None:
+                    ctx.violation(who + ":models", "%s forbids the assignment %r, which satisfies the parity" % (desc, bad))
+                elif len(got) != 1 << (L - 1) or E.clauses != len(F):
+                    ctx.violation(who + ":models", "%s: %d distinct clauses among %d constraints, the parity needs %d: "
+                                  "some violating assignment is allowed or a clause is repeated" % (desc, len(got), len(F), 1 << (L - 1)))
+            else:
+                for _ in range(300):
+                    true = {v for v in base if r.random() < 0.5}
+                    exp = sum(1 for l in lits if (l > 0) == (abs(l) in true)) % 2 == const
+                    if E.value(true) != exp:
+                        ctx.violation(who + ":models", "%s: assignment with true variables %r should %s it"
+                                      % (desc, sorted(true), "satisfy" if exp else "violate"))
+                        break
+            ctx.judged(("huge-parity", cls, tuple(lits), const), nontrivial=True,
+                       sample={"call": "%s.add_parity(<%d literals>, %d)" % (cls, L, const), "constraints": len(F), "judged": how})
 
 
 def case_binary_mapping_wide(ctx, cls, m):
